@@ -305,6 +305,7 @@ class Thread:
         self.h_unmaps = []
         self.arr_h = []       # (model pc, seq) arrivals of the handle owner that concern this thread
         self.arr_t = []       # arrivals of the thread itself
+        self.pk = None        # how a panicking closure panicked
 
 
 def executor_thread(threads, order):
@@ -471,6 +472,7 @@ def normalise(run):
             t = threads.get(e["k"])
             if t:
                 emit(t, {"e": "fin", "how": "ret" if ev == "cend" else "panic"}, e)
+                t.pk = e.get("pk")
                 if ev == "cpanic":
                     batch_panicked += 1
                     panicked_since_base += 1
